@@ -601,7 +601,10 @@ pub fn run_c06(o: &Opts) -> i32 {
         let src = format!("{} {}", coef_pos(&mut rng), a);
         let x = db.rand_name(&mut rng);
         let c2 = *rng.pick(&["2", "3", "1|4", "10", "0.5"]);
-        let text = match rng.below(29) {
+        let text = match rng.below(31) {
+            // sums and differences of conformable quantities written with different unit names
+            29 => format!("{} -> {} {} + {} {}", src, c, a, c2, b),
+            30 => format!("{} -> {} {} - {} {}", src, c2, b, *rng.pick(&["1", "1|3", "0.25"]), a),
             // sums, differences, remainders and bit operations of constants times one unit; fractional powers
             23 => format!("{} -> {} {} + {} {}", src, c, b, c2, b),
             24 => format!("{} -> {} {} - {} {}", src, c2, b, *rng.pick(&["1", "1|3", "0.25", "7"]), b),
